@@ -74,6 +74,28 @@ PROPS = {
                       'cell by cell with a window-over-unbounded-map model on the real object',
         'level_note': 'bounded: grid sizes and offsets as listed in evidence bounds; int cells; ASan/UBSan clean on every execution',
     },
+    'C16': {
+        'sources': ['src/monitoring/OnlineAverage.cpp', 'src/monitoring/OnlineVariance.cpp'],
+        'harness': 'c16_window.cpp',
+        'flavour': 'asan',
+        'level': 'model_checking',
+        'engine': 'sequence',
+        'rule': 'S1: BFS to fixpoint over the product (private state of the real OnlineAverage/OnlineVariance x deque '
+                'model), ops update(v in 5-value alphabet incl. |v|/precision=1e8) and reset(), windows 1..4, six '
+                'precisions. S2: 10*W-update runs for every window 1..64 with iterative deviation bounding (reset / '
+                'outlier placed at every position, bound per window in evidence). S3: RingOfEigenVector capacities '
+                '1..16, append/clear, BFS to fixpoint. evaluation = one oracle comparison after an operation; '
+                'non-trivial = window has wrapped or a reset precedes the operation (S1), run contains a deviation '
+                '(S2), ring full and wrapped (S3).',
+        'assumptions': ['sample values are mid-cell multiples of the precision so truncation is unambiguous',
+                        'precision 1e-5: the library multiplier is int(1/1e-5); one quantum of disagreement with round(1/p) is allowed there'],
+        'tiers': {'quick': {'deadline': 300}, 'thorough': {'deadline': 3000, 'case_timeout': 300}},
+        'technique': 'explicit-state model checking of the implementation (BFS to fixpoint) plus deviation-bounded exhaustive long runs, deque reference model and fresh-object differential oracle',
+        'level_text': 'every reachable product state of small windows is visited and every operation tried from it; '
+                      'long runs cover every window size with every placement of up to k deviations; the ring buffer is '
+                      'explored to fixpoint for every capacity 1..16; UBSan turns signed overflow into a failing case',
+        'level_note': 'value alphabet and deviation kinds are finite and listed; windows above 5 are covered by scripted runs, not by full state search',
+    },
 }
 
 ENGINES = [
